@@ -156,7 +156,6 @@ def map_loop(eng, node, fr, path, it):
     mods = [n for n in assigned_names(node.body)]
     outer = [n for n in mods if n in fr.env]
     k = eng.fresh("k", IntS)
-    path.assume(z3.And(k >= 0, k < it.length))
     snapshot = {n: fr.env[n] for n in outer}
     eng.assign(node.target, it.getter(k), fr, path)
     saved = path.yields
@@ -175,12 +174,23 @@ def map_loop(eng, node, fr, path, it):
         if fr.env[n] is not snapshot[n]:
             raise Limitation(f"mapped loop modifies outer variable {n}")
     # path conditions added inside the body must not mention k (uniform branches only)
-    for c in path.pc[npc:]:
-        if mentions(c, k):
+    for ci in range(npc, len(path.pc)):
+        c = path.pc[ci]
+        if ci in path.decision_idx and mentions(c, k):
             raise Limitation("branch inside a mapped loop depends on the element")
-    y = ys[0]
+    y = boxed_if_complex(ys[0])
     path.yields = SymSeq(it.length, lambda i, y=y, k=k: subst_value(y, k, zterm(i)), "yields")
+    path.yields.skolem = k          # facts about the generic element are in the path condition under this index
     path.notes.append(("map_loop", node.lineno))
+
+
+def boxed_if_complex(y):
+    from .symex import FiltSeq
+    if isinstance(y, (SymSeq, FiltSeq, TermList, TermDict)) or hasattr(y, "box"):
+        return box(y)
+    if isinstance(y, tuple):
+        return tuple(boxed_if_complex(x) for x in y)
+    return y
 
 
 def mentions(t, k):
